@@ -1,6 +1,6 @@
 """C04 — composition parameters equal their published per-residue definitions"""
 from ..runner import Case
-from .. import gen
+from .. import gen, core
 
 ID = "C04"
 STATEFUL = True     # some blocks keep a live object across lines
@@ -42,6 +42,12 @@ PRE = ["linFCR 3", "linNCPR 2", "linSigma 5", "linHydro 4", "linComp 3 -", "kapp
 
 
 def cases(rng, tier):
+    # objects built from sequence files (two per block)
+    for c in gen.file_cases(rng, 12 if tier == "quick" else 100, ['countPos', 'countNeg', 'fcr', 'ncpr', 'kd', 'mw', 'len']):
+        yield c
+    # objects handed back by the library's own moves / shuffles (also with frozen sets, also from a parent whose cache is warm)
+    for l in core.childq_cases(rng, 90 if tier == "quick" else 600, ['countPos', 'countNeg', 'fcr', 'ncpr', 'kd', 'mw', 'aafrac', 'fer']):
+        yield Case([l], {"kind": "object-from-move"})
     # the documented scale names are case-insensitive
     for m in ("Hilser", "HILSER", "Creamer", "CREAMER", "cReAmEr", "Kallenbach", "KALLENBACH", "default"):
         for sq in ("P", "APGQ", gen.rand_seq(rng, "idp", 30)):
